@@ -83,7 +83,147 @@ def _no_fork_eval(ex, fn, what, lineno, bound=None):
     return val
 
 
+# --------------------------------------------------------------------------- component selections (check_jacobian indices)
+LInt = TList(TInt)
+OInt = TOpt(TInt)
+
+
+class _TSel(T):
+    """``int | list[int] | slice(lo, hi) | Ellipsis | None``: what the ``indices`` mapping of check_jacobian associates with a variable
+    (slices with a step are not representable: not covered)."""
+
+    name = "Sel"
+
+    def __init__(self):
+        if "Sel" not in _dt_cache:
+            dt = z3.Datatype("Sel")
+            dt.declare("sel_int", ("sel_i", z3.IntSort()))
+            dt.declare("sel_list", ("sel_l", LInt.sort()))
+            dt.declare("sel_slice", ("sel_lo", OInt.sort()), ("sel_hi", OInt.sort()))
+            dt.declare("sel_ellipsis")
+            dt.declare("sel_none")
+            _dt_cache["Sel"] = dt.create()
+        self.dt = _dt_cache["Sel"]
+
+    def sort(self):
+        return self.dt
+
+    def embed(self, st, v):
+        dt = self.dt
+        if isinstance(v, SV) and v.ty == self:
+            return v.term
+        if v is None:
+            return dt.sel_none
+        if isinstance(v, BuiltinV) and v.name == "Ellipsis":
+            return dt.sel_ellipsis
+        if isinstance(v, int) and not isinstance(v, bool):
+            return dt.sel_int(z3.IntVal(v))
+        if isinstance(v, SV) and v.ty == TInt:
+            return dt.sel_int(v.term)
+        if isinstance(v, Ref) and isinstance(st.heap[v.id], ListObj):
+            o = st.heap[v.id]
+            if o.is_empty_literal:
+                return dt.sel_list(LInt.dt.mk(z3.IntVal(0), st.fresh_const("emptyl", z3.ArraySort(z3.IntSort(), z3.IntSort()))))
+            if o.t == TInt:
+                return dt.sel_list(LInt.dt.mk(o.n, o.elems))
+            if o.t == self:
+                # a list of selections that are integers (``[i]``): the list of these integers
+                i = z3.Int("i!sl")
+                return dt.sel_list(LInt.dt.mk(o.n, z3.Lambda([i], dt.sel_i(o.elems[i]))))
+        raise Unsupported(f"cannot embed {v!r} as a component selection")
+
+    # spec helpers
+    def list_n(self, term):
+        return LInt.dt.accessor(0, 0)(self.dt.sel_l(term))
+
+    def list_el(self, term):
+        return LInt.dt.accessor(0, 1)(self.dt.sel_l(term))
+
+
+TSel = _TSel()
+
+
+def _is_sel(v):
+    return isinstance(v, SV) and v.ty == TSel
+
+
+def clamp_slice(lo, hi, n):
+    """Python's slice(lo, hi).indices(n) without step: (start, length); lo/hi are Opt[Int] terms."""
+    lo_t = z3.If(OInt.is_none(lo), z3.IntVal(0), OInt.dt.get(lo))
+    hi_t = z3.If(OInt.is_none(hi), n, OInt.dt.get(hi))
+    lo_t = z3.If(lo_t < 0, z3.If(lo_t + n < 0, 0, lo_t + n), z3.If(lo_t > n, n, lo_t))
+    hi_t = z3.If(hi_t < 0, z3.If(hi_t + n < 0, 0, hi_t + n), z3.If(hi_t > n, n, hi_t))
+    return lo_t, z3.If(hi_t > lo_t, hi_t - lo_t, 0)
+
+
 class C16Models:
+    # ------------------------------------------------------------------ selections
+    def isinstance_(self, ex, v, cls):
+        if not _is_sel(v):
+            return NotImplemented
+        classes = cls if isinstance(cls, tuple) else (cls,)
+        out = []
+        for c in classes:
+            n = (c.name if isinstance(c, BuiltinV) else getattr(c, "qualname", "?")).rsplit(".", 1)[-1]
+            if n == "int":
+                out.append(TSel.dt.is_sel_int(v.term))
+            elif n == "slice":
+                out.append(TSel.dt.is_sel_slice(v.term))
+            elif n in ("list", "Sequence"):
+                out.append(TSel.dt.is_sel_list(v.term))
+            else:
+                raise Unsupported(f"isinstance(selection, {n})")
+        return SV(z3.simplify(z3.Or(*out)), TBool)
+
+    def contains(self, ex, cont, item, lineno):
+        if not _is_sel(item) or not isinstance(cont, tuple):
+            return NotImplemented
+        out = []
+        for x in cont:
+            if x is None:
+                out.append(TSel.dt.is_sel_none(item.term))
+            elif isinstance(x, BuiltinV) and x.name == "Ellipsis":
+                out.append(TSel.dt.is_sel_ellipsis(item.term))
+            else:
+                raise Unsupported(f"selection in (..., {x!r})")
+        return SV(z3.simplify(z3.Or(*out)), TBool)
+
+    def to_iter(self, ex, v, lineno):
+        if not _is_sel(v):
+            return NotImplemented
+        from .engine import IterV, PyRaise
+
+        st = ex.st
+        if not st.decide(TSel.dt.is_sel_list(v.term)):
+            raise PyRaise("TypeError", lineno)
+        n, els = TSel.list_n(v.term), TSel.list_el(v.term)
+        st.assume(n >= 0)
+        it = IterV(n, lambda i: SV(els[i], TInt))
+        it.elem_type = TInt
+        return it
+
+    def length(self, ex, v, lineno):
+        if not _is_sel(v):
+            return NotImplemented
+        from .engine import PyRaise
+
+        if not ex.st.decide(TSel.dt.is_sel_list(v.term)):
+            raise PyRaise("TypeError", lineno)  # len() of an int / slice / Ellipsis / None
+        return SV(TSel.list_n(v.term), TInt)
+
+    def getitem(self, ex, cont, key, lineno):
+        if not _is_sel(key):
+            return NotImplemented
+        st = ex.st
+        o = st.heap[cont.id] if isinstance(cont, Ref) else None
+        if not isinstance(o, ListObj):
+            raise Unsupported("subscript by a selection on a non-list")
+        if not st.decide(TSel.dt.is_sel_slice(key.term)):
+            raise Unsupported("list subscript by a selection that is not a slice")
+        lo, m = clamp_slice(TSel.dt.sel_lo(key.term), TSel.dt.sel_hi(key.term), o.n)
+        i = z3.Int("i!sl")
+        return st.alloc(ListObj(o.t, m, z3.Lambda([i], o.elems[i + lo])))
+
     # ------------------------------------------------------------------ [f] * n
     def binop(self, ex, op, a, b, lineno, inplace=False):
         if not _on(ex) or op != "Mult":
@@ -159,7 +299,7 @@ class C16Models:
 
             t, e = _no_fork_eval(ex, body, "comprehension element", node.lineno, z3.And(0 <= bi, bi < seq.n))
             if not isinstance(t, TArr):
-                raise Unsupported("c16 comprehension of non-array elements")
+                return NotImplemented  # the generic model of models.py handles scalars
             i = z3.Int("i!c")
             return st.alloc(ListObj(t, seq.n, z3.Lambda([i], z3.substitute(e, (bi, i)))))
         finally:
@@ -167,7 +307,37 @@ class C16Models:
             fr.env.update(saved)
 
     def _flatten(self, ex, node):
-        return NotImplemented
+        """``[item for sub in lists for item in sub]`` over a symbolic list of integer lists (selections that are lists)."""
+        g0, g1 = node.generators
+        if g0.ifs or g1.ifs or not (isinstance(node.elt, ast.Name) and isinstance(g1.target, ast.Name) and node.elt.id == g1.target.id
+                                    and isinstance(g0.target, ast.Name) and isinstance(g1.iter, ast.Name) and g1.iter.id == g0.target.id):
+            return NotImplemented
+        st = ex.st
+        src = ex.ev(g0.iter)
+        L = st.heap[src.id] if isinstance(src, Ref) else None
+        if not isinstance(L, ListObj) or (L.t != TSel and not L.is_empty_literal):
+            return NotImplemented
+        if L.is_empty_literal:
+            return ex.models.make_list(ex, [])
+        offs = getattr(ex.contract, "flatten_offsets", None)
+        if offs is None:
+            raise Unsupported("flattening comprehension: the contract must supply `flatten_offsets` (prefix sums of the sublist lengths)")
+        j, t = z3.Int("j!fl"), z3.Int("t!fl")
+        sub = L.elems[j]
+        # iterating over an element that is not a list is a TypeError
+        ex.check(z3.ForAll([j], z3.Implies(z3.And(0 <= j, j < L.n), TSel.dt.is_sel_list(sub))), "safety", "flatten:items-are-lists", node.lineno, aux=True)
+        # the offsets supplied by the contract are the prefix sums of the sublist lengths (this determines them)
+        ex.check(offs(0) == 0, "safety", "flatten:offsets-start-at-zero", node.lineno, aux=True)
+        ex.check(z3.ForAll([j], z3.Implies(z3.And(0 <= j, j < L.n), offs(j + 1) == offs(j) + TSel.list_n(sub)), patterns=[offs(j + 1)]),
+                 "safety", "flatten:offsets-are-prefix-sums-of-lengths", node.lineno, aux=True)
+        res = st.fresh_const("flat", z3.ArraySort(z3.IntSort(), z3.IntSort()))
+        st.assume(z3.ForAll([j, t], z3.Implies(z3.And(0 <= j, j < L.n, 0 <= t, t < TSel.list_n(sub)), res[offs(j) + t] == TSel.list_el(sub)[t]),
+                            patterns=[res[offs(j) + t]]))
+        ex.assumed.add("flattening comprehension [x for sub in lists for x in sub]: item t of sublist j is placed at offsets(j) + t, the offsets being the "
+                       "(unique) prefix sums of the sublist lengths - recurrence checked on the offsets supplied by the contract")
+        out = ListObj(TInt, offs(L.n), res)
+        st.assume(out.n >= 0)
+        return st.alloc(out)
 
     # ------------------------------------------------------------------ CallableParallelExecution
     def construct(self, ex, cv, args, kwargs, lineno):
